@@ -6,7 +6,7 @@ import torch
 
 from .. import aggs, matrices as M, refmodels as R
 from ..core import fingerprint
-from ._agg import EPS, as64, call, pref_vector, shape_ok, to_t
+from ._agg import DT, EPS, as64, call, pref_vector, shape_ok, to_t
 from ._common import run_cases, shard_rng, split_shards
 
 ID = "C03"
@@ -31,7 +31,8 @@ def shards(tier, seed):
 def requirements(tier):
     return {"output_vs_exact_projection": 3000, "w_projection_active": 1000, "w_projection_identity": 500, "w_s_below_norm_eps": 100,
             "w_s_above_norm_eps": 2000, "w_no_conflict_is_JTu": 300, "w_float32": 500, "w_pref_vector": 1000, "w_UPGrad": 1500,
-            "w_DualProj": 1500, "w_m_gt_6": 200, "weights_hook_seen": 1}
+            "w_DualProj": 1500, "w_m_gt_6": 200, "weights_hook_seen": 1, "w_instance_reused_on_another_matrix": 500,
+            "w_pref_vector_in_other_dtype": 300}
 
 
 def gen_case(rng, i, max_m=8):
@@ -53,35 +54,53 @@ def gen_case(rng, i, max_m=8):
         k = rng.uniform(-12, 15) if dname == "float32" else rng.uniform(-100, 100)
         J = J * 10.0 ** k / s
     name = "UPGrad" if rng.random() < 0.5 else "DualProj"
-    return {"J": J.tolist(), "class": klass, "dtype": dname, "agg": {"name": name, "pref": pref_vector(rng, m), "norm_eps": ne, "reg_eps": re}}
+    agg = {"name": name, "pref": pref_vector(rng, m), "norm_eps": ne, "reg_eps": re}
+    if agg["pref"] is not None and rng.random() < 0.25:
+        agg["pref_dtype"] = "float32" if dname == "float64" else "float64"  # preference vector in another dtype than the matrix
+    case = {"J": J.tolist(), "class": klass, "dtype": dname, "agg": agg}
+    if rng.random() < 0.3:
+        # the same aggregator INSTANCE is then applied to further matrices (same number of rows): every call must be right
+        keep_m = ["gaussian", "lowrank", "antiparallel", "duplicated", "rowscale", "ints", "zero_rows", "nonconflicting"]
+        case["then"] = [M.gen(rng, m=m, klass=keep_m[int(rng.integers(len(keep_m)))], max_n=12)[0].tolist() for _ in range(int(rng.integers(1, 3)))]
+    return case
 
 
 def check_case(case, ctx):
+    a = case["agg"]
+    agg = aggs.make(a, DT[case["dtype"]])
+    check_one(case, case["J"], agg, ctx, first=True)
+    for k, Jn in enumerate(case.get("then", [])):
+        ctx.count("w_instance_reused_on_another_matrix")
+        check_one(case, Jn, agg, ctx, first=False, label=f"call {k + 2} of the same instance")
+
+
+def check_one(case, Jlist, agg, ctx, first, label="first call"):
     dname = case["dtype"]
-    Jt = to_t(np.array(case["J"], dtype=np.float64).reshape(len(case["J"]), -1), dname)
+    Jt = to_t(np.array(Jlist, dtype=np.float64).reshape(len(Jlist), -1), dname)
     J = as64(Jt)
     m, n = J.shape
     a = case["agg"]
-    agg = aggs.make(a, Jt.dtype)
     out, err, w_seen = call(agg, Jt)
     if not np.isfinite(J).all():
         ctx.not_judged("nonfinite_after_cast")
         return
     if err is not None:
-        ctx.violation("aggregator_raised", case, {"error": repr(err)[:300]})
+        ctx.violation("aggregator_raised", case, {"call": label, "error": repr(err)[:300]})
         ctx.evaluated()
         return
     bad = shape_ok(out, Jt)
     if bad:
-        ctx.violation("output_shape_or_dtype", case, {"problem": bad})
+        ctx.violation("output_shape_or_dtype", case, {"call": label, "problem": bad})
         ctx.evaluated()
         return
     if w_seen is not None:
         ctx.count("weights_hook_seen")
     o = as64(out)
     u = np.full(m, 1.0 / m) if a["pref"] is None else np.array(a["pref"], dtype=np.float64)
-    if dname == "float32":
+    if (a.get("pref_dtype") or dname) == "float32":
         u = u.astype(np.float32).astype(np.float64)
+    if a.get("pref_dtype"):
+        ctx.count("w_pref_vector_in_other_dtype")
     ne, re = a["norm_eps"], a["reg_eps"]
     G, s = R.regularized_normalized_gramian(J, ne, re)
     ctx.klass(f"class={case['class']}")
@@ -96,7 +115,7 @@ def check_case(case, ctx):
         ctx.count("w_s_below_norm_eps")
         ctx.maximum(f"below_norm_eps_{dname}", errn / (s * np.linalg.norm(u) + 1e-300) if s > 0 else errn)
         if not errn <= tol:
-            ctx.violation("not_JTu_below_norm_eps", case, {"output": o.tolist(), "expected_JTu": exp.tolist(), "s": s, "norm_eps": ne})
+            ctx.violation("not_JTu_below_norm_eps", case, {"call": label, "output": o.tolist(), "expected_JTu": exp.tolist(), "s": s, "norm_eps": ne})
         ctx.evaluated(fingerprint(case), nontrivial=False)
         return
     ctx.count("w_s_above_norm_eps")
@@ -126,7 +145,7 @@ def check_case(case, ctx):
     ctx.count("output_vs_exact_projection")
     identity = np.linalg.norm(wstar - u) <= 1e-6 * np.linalg.norm(u)
     if not errn <= tau * scale:
-        ctx.violation("not_the_dual_cone_projection", case, {"output": o.tolist(), "expected_JTw": exp.tolist(), "w_star": wstar.tolist(), "u": u.tolist(),
+        ctx.violation("not_the_dual_cone_projection", case, {"call": label, "output": o.tolist(), "expected_JTw": exp.tolist(), "w_star": wstar.tolist(), "u": u.tolist(),
                                                              "rel_err_in_units_of_s_w": errn / scale, "s": s, "weights_seen": None if w_seen is None else w_seen.tolist()})
     # consequence: no negative inner product between rows => exactly J^T u
     Gram = J @ J.T
@@ -136,7 +155,7 @@ def check_case(case, ctx):
         tol2 = tau * s * np.linalg.norm(u)
         ctx.maximum(f"no_conflict_{dname}", e2 / (s * np.linalg.norm(u)))
         if not e2 <= tol2:
-            ctx.violation("no_conflict_but_not_JTu", case, {"output": o.tolist(), "JTu": (J.T @ u).tolist()})
+            ctx.violation("no_conflict_but_not_JTu", case, {"call": label, "output": o.tolist(), "JTu": (J.T @ u).tolist()})
     ctx.count("w_projection_identity" if identity else "w_projection_active")
     if dname == "float32":
         ctx.count("w_float32")
